@@ -39,6 +39,16 @@
    VF_CFG( "act-opt-obsnu-lazy", TOP, ACT, vf::obs_control_nounwind, action, optional, lazy, true, false, true, true, true );   \
    VF_CFG_CNT( "act-opt-obs-eager-counters", TOP, ACT, vf::obs_control_unw, action, optional, eager, true, false, false );      \
    VF_CFG_CNT( "act-req-obs-lazy-counters", TOP, ACT, vf::obs_control_unw, action, required, lazy, true, true, true )
+#elif VF_CFGSET == 6
+// C12: parse trees with three selectors (the grammar's namespace provides sel0, sel1, sel2), eager and lazy
+#define VF_CFG_TREE( NAME, TOP, SEL, ACT, T, lazy, selno ) \
+   e.cfgs.push_back( vf::cfg_entry{ NAME, &vf::runner_tree< TOP, SEL, ACT, tao::pegtl::tracking_mode::T, VF_EOL >, true, false, lazy, false, true, VF_EOL_ID, 0, 1, 1, selno } )
+#define VF_CFGS( e, TOP, ACT )                                                                                                 \
+   VF_CFG( "act-req-obs-eager", TOP, ACT, vf::obs_control_unw, action, required, eager, true, true, false, true, true );        \
+   VF_CFG_TREE( "tree-all-eager", TOP, sel0, ACT, eager, false, 0 );                                                            \
+   VF_CFG_TREE( "tree-sel1-eager", TOP, sel1, ACT, eager, false, 1 );                                                           \
+   VF_CFG_TREE( "tree-sel2-eager", TOP, sel2, ACT, eager, false, 2 );                                                           \
+   VF_CFG_TREE( "tree-sel1-lazy", TOP, sel1, ACT, lazy, true, 1 )
 #elif VF_CFGSET == 4
 // C08: observer through state_control, and the coverage facility
 #define VF_CFGS( e, TOP, ACT )                                                                                                 \
